@@ -65,11 +65,11 @@ func allSpellings() []spelling {
 
 func parses(s string) bool { _, err := url.Parse(s); return err == nil }
 
-// repoURLs returns the repository URL spellings with at most maxDev deviations
-// from the baseline (4 = the full product), unparsable ones removed.
-func repoURLs(maxDev int) (out []string, dropped int) {
+// repoURLs returns the repository URL spellings with minDev..maxDev deviations
+// from the baseline (0..4 = the full product), unparsable ones removed.
+func repoURLs(minDev, maxDev int) (out []string, dropped int) {
 	for _, sp := range allSpellings() {
-		if sp.deviations() > maxDev {
+		if d := sp.deviations(); d < minDev || d > maxDev {
 			continue
 		}
 		u := sp.authority() + repoPath
